@@ -5,6 +5,7 @@ import itertools
 from collections import Counter
 
 import os
+import time
 import common
 import corr_detect as cd
 import gen_passwords
@@ -325,6 +326,11 @@ def run(ctx):
     else:
         disagreements.append({'stream': 'parse', 'detail': 'driver does not build'})
     dist['labels'] = dict(dist['labels'])
+    # the Unicode hypothesis of C05_other_sound (lower-casing changes the alpha-ness of no position), over all code points
+    import unicode_check
+    t_u = time.time()
+    dist['alpha_law_exceptions'] = [hex(c) for c in unicode_check.alpha_law_exceptions()][:20]
+    dist['alpha_law_seconds'] = round(time.time() - t_u, 2)
     return {'evaluations': cases, 'distinct_nontrivial': nontrivial, 'traces': cases,
             'rule': 'training lists interleaving and overlapping the detectors\' trigger patterns (keyboard walks on two layouts, e-mails, '
                     'URLs with prefixes / paths / nested TLDs, years with digit neighbours, context strings, words and multi-words, digit '
